@@ -64,6 +64,9 @@ def configs(tier):
             # simulators without delay support: both parts at the firing time
             out.append(dict(spec=sp, grid='u5', safe=False, route='ssa', bound=2))
             out.append(dict(spec=sp, grid='u5', safe=False, route='volume', bound=2))
+            # the delayed reaction added to a model that was already initialised (and simulated) once
+            if sp['name'].startswith(('D1', 'D4')):
+                out.append(dict(spec=sp, grid='u5', safe=False, route='delay', bound=2, incremental=True))
             # delay together with a volume (entry point -> DelayVolumeSSASimulator)
             out.append(dict(spec=sp, grid='u5', safe=False, route='delayvol', bound=2))
     out.append(dict(route='samplers', spec=dict(name='samplers'), grid='-', safe=False, bound=0))
@@ -92,7 +95,21 @@ def run_config(c, cfg):
     times = TIMES[cfg['grid']]
     qdt = times[1] - times[0]
     ncols = len(times)
-    impl = e1.Impl(sp, cfg['safe'])
+    if cfg.get('incremental'):
+        # reaction order of the model: the non-delayed reactions first, the (first) delayed one appended after an initialisation
+        sp = dict(sp, reactions=sp['reactions'][1:] + sp['reactions'][:1])
+        from ..modelspec import reaction_tuple
+        first = dict(sp, reactions=sp['reactions'][:-1])
+
+        def prepare(model):
+            from bioscrape.simulator import py_simulate_model
+            model.py_initialize()
+            py_simulate_model(np.array(TIMES['u5']), Model=model, stochastic=True, delay=True, return_dataframe=False)
+            model.create_reaction(*reaction_tuple(sp['reactions'][-1]))
+        impl = e1.Impl(first, cfg['safe'], prepare=prepare)
+        impl.spec = sp
+    else:
+        impl = e1.Impl(sp, cfg['safe'])
     route = cfg['route']
     mode = 'stochvol' if route in ('volume', 'delayvol') else 'stoch'
     net = RS.Net(sp, mode, cfg['safe'])
@@ -143,7 +160,8 @@ def run_config(c, cfg):
                 c.harness_error('non-deterministic replay ' + sp['name'])
         case = dict(cfg=cfg, us=ref['us'], ref_rows=ref['rows'], impl_rows=got['rows'],
                     letters=[m.letters[ch].name for m, ch in zip(menus, choices)])
-        pre = 'C10/%s/%s/%s/' % (route, sp['reactions'][0]['delay']['type'], sp['name'])
+        dtyp = next(r['delay']['type'] for r in cfg['spec']['reactions'] if r.get('delay'))
+        pre = 'C10/%s%s/%s/%s/' % (route, '-incremental' if cfg.get('incremental') else '', dtyp, sp['name'])
         bad = e1.compare(ref, got)
         if bad:
             c.violation(pre + bad[0], bad[1], case)
@@ -160,12 +178,12 @@ def run_config(c, cfg):
             states.add(v)
         outcomes.add((tuple(map(tuple, ref['rows'])), str(ref.get('queue'))))
         if len(ref['us']) > 4 and len(c.samples) < 2:
-            c.sample(dict(network=sp['name'], delay=sp['reactions'][0]['delay'], route=route, times=times,
+            c.sample(dict(network=sp['name'], delay=cfg['spec']['reactions'][0]['delay'], route=route, times=times,
                           letters=case['letters'], us=ref['us'], rows=ref['rows'], queue=ref.get('queue')))
     EXP.explore(factory, cfg['bound'], on_trace)
     c.count('states', len(states))
     if len(outcomes) > 1:
-        c.nontrivial((sp['name'], str(sp['reactions'][0]['delay']), cfg['grid'], cfg['safe'], route))
+        c.nontrivial((sp['name'], str(cfg['spec']['reactions'][0]['delay']), cfg['grid'], cfg['safe'], route, bool(cfg.get('incremental'))))
 
 
 def samplers(c):
@@ -247,7 +265,7 @@ def run(ctx):
                 'the reference delay simulator\'s choice tree (waiting time vs next grid time vs next queue slot, reaction bucket, '
                 'Box-Muller / Marsaglia-Tsang variates realising negative, sub-step, lower/upper part of a slot, on-slot and '
                 'beyond-horizon delays) is explored to the cost bound and every trace replayed on DelaySSASimulator (directly and '
-                'through py_simulate_model(delay=True)), comparing rows, draws and the drained final queue; the same through py_simulate_model(delay=True, volume=2.0) on DelayVolumeSSASimulator; SSASimulator and '
+                'through py_simulate_model(delay=True)), comparing rows, draws and the drained final queue; the same through py_simulate_model(delay=True, volume=2.0) on DelayVolumeSSASimulator; and on models to which the delayed reaction was added after a first initialisation and simulation; SSASimulator and '
                 'VolumeSSASimulator are replayed against references that apply both parts at the firing time; plus the delay '
                 'samplers on a full lattice of uniforms. states = distinct (state, grid index, queue content) of the reference; '
                 'non-trivial = configuration with more than one distinct outcome.')
